@@ -153,3 +153,16 @@ Proof.
   induction b as [|u b IH]; intros c; [cbn [exec fold_left]; lia|].
   rewrite exec_cons. etransitivity; [apply (step_cur_mono e c u)|apply IH].
 Qed.
+
+(** ** stuttering: scheduling threads that have finished their programs changes nothing -- shared state, local
+    states, trace and label stream stay what they are (nothing happens behind the callers' backs once every
+    call has returned) *)
+Theorem finished_threads_do_nothing : forall e s c,
+  (forall t, In t s -> t_pc (c_pool c t) = PIdle /\ t_todo (c_pool c t) = []) -> exec e c s = c.
+Proof.
+  intros e s. induction s as [|u s IH]; intros c H; [reflexivity|].
+  rewrite exec_cons.
+  assert (Hs : step e c u = c).
+  { destruct (H u (or_introl eq_refl)) as [H1 H2]. unfold step. rewrite H1, H2. reflexivity. }
+  rewrite Hs. apply IH. intros t Ht. apply H. right. exact Ht.
+Qed.
